@@ -23,13 +23,13 @@ CHECKS = {
          "Closure over submissions/Up/Down/editing for every cb 0..=3 x hb 0..=7 (+ larger thorough configs); in every transition the NUL-split raw history buffer must equal the reference deque (dedupe, oldest-first minimal eviction, no recording of empty/oversize lines) and Up/Down must show exactly the reference entry.",
          "Forks allowed where the statement is silent: Down while not navigating, navigation position after an unrecorded Enter.", "4 C10"),
  "C15": ("model_checking", "explicit-state BFS over the real Cli; write/flush event order monitor on every call",
-         "The recording sink logs write and flush calls; after every successful API call of every explored transition (same sessions as C06: typing, recall, completion, handler output, parse-error output, help, Cli::write, set_prompt, one-byte sink) no written byte may follow the last flush.",
+         "The recording sink logs write and flush calls; after every successful API call of every explored transition (the C06 sessions - typing, recall, completion, handler output, Cli::write, set_prompt, one-byte sink, byte-granular - plus sessions over a derived enum and a command group that print help listings, command help, parse errors and handler errors) no written byte may follow the last flush.",
          "Observed at call return only.", "4 C15"),
  "C02": ("model_checking", "explicit-state closure of the real Utf8Accum / InputGenerator over all byte values in lock-step with a strict Table 3-7 decoder; raw-byte Cli sessions",
          "(a) every reachable state of the real Utf8Accum x all 256 byte values, (b) every reachable state of the real InputGenerator x boundary bytes (thorough: all 256), both compared with a strict Unicode Table 3-7 decoder: whatever is emitted must be exactly one well-formed scalar and every contiguous well-formed sequence must be emitted; (c) raw-byte sessions through the whole Cli where every string handed to the handler, the edited line, history contents and echoed bytes must be valid UTF-8.",
          "Policy for resynchronisation after an ill-formed byte is left open (lenient accepts are counted, not flagged).", "4 C02"),
  "C03": ("model_checking", "explicit-state BFS over the real Cli under debug assertions, overflow checks and std unsafe-precondition checks; closure for small buffers, depth-bounded from pre-filled states for buffers up to 64",
-         "Every transition runs under catch_unwind in a child process built with debug-assertions and overflow-checks (std's unsafe-precondition checks abort on a violated get_unchecked / copy_nonoverlapping / unwrap_unchecked / from_u32_unchecked precondition); a panic or abort anywhere is the violation, with the path recovered by a journal rerun. Closure for all listed small (cb,hb) incl. 0 and 1 with a wide alphabet (API calls interleaved), raw-byte sessions, decoder closure over all 256 bytes, and depth-bounded search from pre-filled states for buffers up to 64 bytes; representation invariants checked in every state; poison differential on dead buffer bytes.",
+         "Every transition runs under catch_unwind in a child process built with debug-assertions and overflow-checks (std's unsafe-precondition checks abort on a violated get_unchecked / copy_nonoverlapping / unwrap_unchecked / from_u32_unchecked precondition); a panic or abort anywhere is the violation, with the path recovered by a journal rerun. Closure for all listed small (cb,hb) incl. 0 and 1 with a wide alphabet (API calls interleaved), raw-byte sessions, decoder closure over all 256 bytes, depth-bounded search from pre-filled states for buffers up to 64 bytes, a shallow search over the whole grid of buffer-size pairs (thorough: all 65x65), a supplementary run under miri (thorough); representation invariants checked in every state; poison differential on dead buffer bytes.",
          "Large buffers are only depth-bounded (evidence lists which explorations are exhaustive). from_utf8_unchecked has no std precondition check: validity is checked by the harness (C02).", "4 C03"),
  "C04": ("model_checking", "explicit-state closure of the real InputGenerator over ~700 key units in lock-step with the per-unit meaning and the greedy CR/LF pairing automaton",
          "The real InputGenerator is driven by complete key units (every printable ASCII, boundary scalars of each length, CR, LF, BS, TAB, DEL, every other C0 byte, ESC [ params final for every final byte 0x40..0x7E and several parameter strings) from every reachable decoder state to closure, so unit streams of every length are covered; outputs must equal the unit's meaning and terminators follow the 3-state greedy pairing reference.",
@@ -40,8 +40,8 @@ CHECKS = {
  "C08": ("exploration", "complete enumeration of token lists (bounded) through Tokens::from_raw + ArgList::args against a reference classifier and the re-join law",
          "Every list of <= 3 tokens of <= 3 symbols over {-, a, é, 中, 𝄞, space} (17.4 M lists) plus lists over the first/last scalar of every encoded length, through the real ArgsIter; item-by-item equality with the reference classifier and an independently coded re-join law; short lists are also typed quoted after a command name into a Cli.",
          "Bounded list and token length.", "4 C08"),
- "C13": ("model_checking", "closure of the real Writer's state under 340 output calls, each transition executed end to end in a handler and in Cli::write from 6 editor states; plus BFS sessions with every output call at every editing state",
-         "(i) BFS over the real Writer's (dirty,last_bytes) state x reference (non-empty, ends-in-LF) to closure over write_str / writeln_str / uwrite! / fmt::Write with every text of <= 3 symbols over {a, é, LF, CR}; every transition is executed inside a handler on Enter and inside Cli::write in a real Cli and compared byte for byte with conv(script)+(CRLF iff needed)+prompt; (ii) session BFS where every single output call (and some two-call scripts) is made at every reachable editing state, with the terminal emulator checking the line and cursor are redisplayed.",
+ "C13": ("model_checking", "closure of the real Writer's state under 510 output calls, each transition executed end to end in a handler and in Cli::write from 6 editor states; plus BFS sessions with every output call at every editing state",
+         "(i) BFS over the real Writer's (dirty,last_bytes) state x reference (non-empty, ends-in-LF) to closure over write_str / writeln_str / uwrite! / fmt::Write::write_str / character-wise write! and uwrite! with every text of <= 3 symbols over {a, é, LF, CR}; every transition is executed inside a handler on Enter and inside Cli::write in a real Cli and compared byte for byte with conv(script)+(CRLF iff needed)+prompt; (ii) session BFS where every single output call (and some two-call scripts) is made at every reachable editing state, with the terminal emulator checking the line and cursor are redisplayed.",
          "Output alphabet {a, é, LF, CR}; texts <= 3 (thorough 4) symbols.", "4 C13"),
  "C14": ("fault_enumeration", "explicit-state BFS over the real Cli where every sink call position (write and flush) of every transition is failed once / until return; post-fault states are explored to closure",
          "For every reachable state of a session closure (plain derived enum and a CommandGroup of two enums; typing, editing, recall, completion, Enter with handler output / parse error / prompt change, help via -h and help, Cli::write, set_prompt) and every event, the fault-free execution is counted and then re-executed once per sink call position x {fails once, fails until the API call returns}: the call must return Err, must not panic, the decoder state must equal the fault-free one and the line must be as before / as the key leaves it / empty; post-fault states are ordinary BFS states, so later dispatch is checked by the C01 monitor from every one of them (any number of sequential faults).",
